@@ -13,9 +13,19 @@ Traces == JsonDeserialize(IOEnv.TRACE_FILE)
 T == Traces[tid]
 Top == fm
 
+\* A text that is not closed (an identifier used but not declared in its module, an instance of a module the file does not
+\* define) has no behaviour to compare: it is reported as such instead of being executed (static rules of VerilogWF).
+WF == INSTANCE VerilogWF
+Mods(F) == {F.modules[k] : k \in 1..Len(F.modules)}
+Unresolved(F) ==
+    UNION {{<<m.name, n>> : n \in (WF!Reads(m) \cup WF!Writes(m)) \ WF!Declared(m)} : m \in Mods(F)}
+    \cup UNION {{<<m.name, m.insts[k].mod>> : k \in {k \in 1..Len(m.insts) : WF!Def(F, m.insts[k].mod) = <<>>}} : m \in Mods(F)}
+    \cup (IF WF!Def(F, Traces[tid].top) = <<>> THEN {<<"file", Traces[tid].top>>} ELSE {})
+Closed(F) == Unresolved(F) = {}
+
 Init == /\ tid \in 1..Len(Traces) /\ l = 0 /\ bad = FALSE
-        /\ fm = Flatten(Traces[tid].file, Traces[tid].top)
-        /\ st = FlatInit(Flatten(Traces[tid].file, Traces[tid].top))
+        /\ fm = IF Closed(Traces[tid].file) THEN Flatten(Traces[tid].file, Traces[tid].top) ELSE <<>>
+        /\ st = IF Closed(Traces[tid].file) THEN FlatInit(Flatten(Traces[tid].file, Traces[tid].top)) ELSE <<>>
 
 InsOf(vals) == [p \in {T.ins[k] : k \in 1..Len(T.ins)} |-> vals[CHOOSE k \in 1..Len(T.ins) : T.ins[k] = p]]
 
@@ -35,7 +45,8 @@ PowerWith(s) ==
 PowerUp ==
     /\ l = 0 /\ ~bad
     /\ l' = 1 /\ tid' = tid /\ st' = st /\ fm' = fm
-    /\ IF T.pre.skip = 1 THEN bad' = FALSE ELSE PowerWith(Settle(T.file, fm, InsOf(T.pre.i), st))
+    /\ IF ~Closed(T.file) THEN bad' = TRUE /\ Say("V", "not-closed", CHOOSE u \in Unresolved(T.file) : TRUE)
+       ELSE IF T.pre.skip = 1 THEN bad' = FALSE ELSE PowerWith(Settle(T.file, fm, InsOf(T.pre.i), st))
 
 StepJudge(env, mm) ==
     IF mm # {} THEN bad' = TRUE /\ Say("V", "cycle", <<T.outs[CHOOSE k \in mm : TRUE], env[T.outs[CHOOSE k \in mm : TRUE]]>>)
